@@ -440,6 +440,8 @@ def prepare(case, root, jobs, name, standalone=True, inspect=True):
     jobs.add((name, "launch"), launch_args(case, trace_path_of(case, L)), L)
     if inspect:
         jobs.add((name, "inspect"), ["inspect", "pipeline.yaml"], L)
+        # the same file inspected from another working directory (relative source paths resolve against the file's directory)
+        jobs.add((name, "inspect-elsewhere"), ["inspect", os.path.join("launch", "pipeline.yaml")], d)
     if standalone:
         for i, r in enumerate(case["runs"]):
             S = os.path.join(d, "s%d" % i)
@@ -481,6 +483,10 @@ def observe(case, res, name):
         m = re.search(r"Run-Space Config ID:\s*(\S+)", iout)
         ob["inspect_spec_id"] = m.group(1) if m else None
         ob["inspect_rc"] = irc
+    if (name, "inspect-elsewhere") in res:
+        irc, iout, ierr = res[(name, "inspect-elsewhere")]
+        m = re.search(r"Run-Space Config ID:\s*(\S+)", iout)
+        ob["inspect_spec_id_elsewhere"] = m.group(1) if m else None
     return ob
 
 
@@ -605,6 +611,11 @@ def oracles(ck, case, ob, sobs, stats):
                                   % (str(ob["inspect_spec_id"])[:16], st["run_space_spec_id"][:16]), replay_of(case, {"kind": "inspect"}))
             else:
                 stats["inspect_agree"] = stats.get("inspect_agree", 0) + 1
+            if "inspect_spec_id_elsewhere" in ob and ob["inspect_spec_id_elsewhere"] != st["run_space_spec_id"] and ob["inspect_spec_id"] == st["run_space_spec_id"]:
+                ck.fail_input("C09:inspect:spec-id-depends-on-working-directory",
+                              "`semantiva inspect launch/pipeline.yaml` run from the parent directory prints run-space spec id %s; run next to the file it prints %s, "
+                              "which is what run_space_start carries" % (str(ob["inspect_spec_id_elsewhere"])[:16], st["run_space_spec_id"][:16]),
+                              replay_of(case, {"kind": "inspect"}))
     # results: later runs not started, earlier ones equal to the standalone runs
     for i in range(n):
         res = ob["results"][i]
@@ -1129,7 +1140,10 @@ def canonical_texts(rs, paths_agree):
     svc = RunSpaceIdentityService()
     rt = svc._rscf_v1(asdict(_parse_run_space_block(rs))).decode()
     ins = rt if paths_agree else json.dumps(_normalize_run_space(rs), separators=(",", ":"), ensure_ascii=False)
-    ins_id = _compute_run_space_spec_id(rs)
+    try:
+        ins_id = _compute_run_space_spec_id(rs)
+    except Exception as ex:  # noqa - the in-process call runs in the harness' working directory
+        raise OutOfModel("_compute_run_space_spec_id raised %r in the harness process" % (ex,))
     if hashlib.sha256(b"semantiva:rscf1:" + ins.encode()).hexdigest() != ins_id:
         raise OutOfModel("inspection spec id is not the hash of the expected canonical text (paths_agree=%s)" % paths_agree)
     return rt, ins, ins_id
